@@ -321,7 +321,8 @@ def jobs(tier):
                          ("restricted", 0, 0)):
         out.append(job("C12", f"mo-views[{kind},{na},{nb}]", M, "h_mo_views", dict(kind=kind, norba=na, norbb=nb)))
     out.append(job("C12", "mo-generalized", M, "h_mo_generalized", {}))
-    for kind, na, nb in (("restricted", 2, 2), ("unrestricted", 1, 2), ("unrestricted", 0, 1)):
+    for kind, na, nb in (("restricted", 2, 2), ("unrestricted", 1, 2), ("unrestricted", 0, 1), ("restricted", 0, 0), ("unrestricted", 0, 0),
+                         ("restricted", 1, 1), ("unrestricted", 3, 0)):
         out.append(job("C12", f"mo-construct-reject[{kind},{na},{nb}]", M, "h_mo_construct_reject",
                        dict(kind=kind, norba=na, norbb=nb)))
     for ncon in (1, 2, 3):
